@@ -198,6 +198,9 @@ pub fn judge_stitched(target_idx: usize, scratch: &Scratch, n: &AtomicU64) -> Ve
     t0.insert("zz".into(), Node::file(b"zz", T0 + 4));
     let mut t1 = empty_tree();
     t1.insert("l0".into(), Node::symlink(&target, T0 + 11));
+    // other symlinks that sort between /l0 and the old entries below it, and before it
+    t1.insert("k".into(), Node::symlink("zz", T0 + 12));
+    t1.insert("m".into(), Node::symlink("zz", T0 + 13));
     t1.insert("zz".into(), Node::file(b"zz", T0 + 4));
     let src0 = scratch.fresh("s0");
     tree::materialize(&t0, &src0);
@@ -241,6 +244,22 @@ pub fn judge_stitched(target_idx: usize, scratch: &Scratch, n: &AtomicU64) -> Ve
             ro.describe()
         );
         v.extend(check_outside(&sandbox, &before, &at, "interrupted-version-with-dir-turned-symlink"));
+        // and once more into the destination that restore has just produced, with overwrite
+        let ro2 = run::do_restore(
+            &a2,
+            &dest,
+            &RestoreArgs {
+                sel: Sel::Band(1),
+                subtree: None,
+                exclude: &[],
+                overwrite: true,
+            },
+            run::NOHOOK,
+            Flavor::Current,
+        );
+        n.fetch_add(1, AO::Relaxed);
+        let at2 = format!("{at}; restored again over the result with overwrite: {}", ro2.describe().chars().take(200).collect::<String>());
+        v.extend(check_outside(&sandbox, &before, &at2, "interrupted-version-with-dir-turned-symlink-restored-twice"));
         // put the sentinels back if something was damaged, so later crash points are judged afresh
         if outside(&sandbox).ok().as_ref() != Some(&before) {
             let _ = std::fs::remove_dir_all(&sandbox);
